@@ -10,7 +10,7 @@ from vlib.runner import HarnessError, Mismatch, drive
 PROP = "C06"
 LEVEL = "exploration"
 WORKERS = {"quick": 4, "thorough": 16}
-BUDGET = {"quick": 75, "thorough": 700}
+BUDGET = {"quick": 100, "thorough": 700}
 TECHNIQUE = (
     "grammar-based Hypothesis filters over typed corpora + bounded enumeration of leaf filters, "
     "against an independent per-job reference evaluator and metamorphic locality / set-algebra relations"
